@@ -257,7 +257,7 @@ Definition dir_radix (colon at_ : bool) (ps : list param) (c : ctl) : pres :=
     else match arg_at c with
          | Some (VInt z) =>
              let c := set_apos c (c_apos c + 1) in
-             let i := if at_ then go_roman T colon (dec_text z) else go_english T colon (dec_text z) in
+             let i := if at_ then go_roman T colon (go_radix_digits z) else go_english T colon (go_radix_digits z) in
              let s := if at_ then std_roman colon z else std_english colon z in
              (* site: the words *)
              match pick i s with
